@@ -16,7 +16,9 @@ Definition find_header (n : string) (hs : list header) : option header := List.f
      QBad    f32::from_str rejects it
      QUn     outside the modelled sub-domain (exponents, inf, nan, more than three digits on a side)
    ------------------------------------------------------------------------------------------ *)
-Inductive qv := QOk (thousandths : Z) | QBad | QUn.
+(* QNaN: a spelling f32::from_str turns into NaN ([+-]?nan, any letter case); since repair D7 such
+   entries are dropped before the sort (response.rs: parse.retain(|v| !v.1.is_nan())) *)
+Inductive qv := QOk (thousandths : Z) | QBad | QUn | QNaN.
 Definition all_digits (x : bytes) : bool := forallb is_digit x.
 Fixpoint dec_z (acc : Z) (x : bytes) : Z :=
   match x with [] => acc | c :: t => dec_z (acc * 10 + Z.of_N (dval c)) t end.
@@ -30,8 +32,12 @@ Definition frac3 (x : bytes) : Z :=
 Definition float_char (c : ascii) : bool :=
   is_digit c || existsb (Ascii.eqb (to_lower c)) (s "+-.einfatyn").
 Definition nat_le3 (x : bytes) : bool := (List.length x <=? 3)%nat.
+Definition is_nan_spelling (x0 : bytes) : bool :=
+  let x := match x0 with "+" :: t => t | "-" :: t => t | _ => x0 end in
+  beq (lower x) (s "nan").
 Definition parse_q (x0 : bytes) : qv :=
   if negb (forallb float_char x0) then QBad else
+  if is_nan_spelling x0 then QNaN else
   match x0 with
   | [] => QBad
   | _ =>
@@ -91,6 +97,7 @@ Fixpoint all_ok (l : list (bytes * qv)) : option (list (bytes * Z)) :=
   match l with
   | [] => Some []
   | (n, QOk z) :: t => match all_ok t with Some r => Some ((n, z) :: r) | None => None end
+  | (n, QNaN) :: t => all_ok t
   | _ => None
   end.
 Fixpoint first_supported (l : list (bytes * Z)) : option coding :=
